@@ -244,6 +244,7 @@ func cmdRobust(args []string) {
 		seen[h] = true
 		return false
 	}
+	breaker := ns.NewHangBreaker(3)
 	sum := map[string]int{}
 	labels := map[string]int{}
 	sigs := &sigTable{}
@@ -257,11 +258,14 @@ func cmdRobust(args []string) {
 			return
 		}
 		tm := *tokenEvery > 0 && (i / *stride)%*tokenEvery == 0
-		o := ns.RunRobust(&c, tm, !*noInterp, seenFn)
+		o := ns.RunRobust(&c, tm, !*noInterp, seenFn, breaker)
 		mu.Lock()
 		sum["cases"]++
 		sum["evaluations"] += o.Evaluations
 		sum["distinct_inputs"] += len(o.Hashes)
+		sum["print_variants_run"] += o.PrintRuns
+		sum["print_variants_executed"] += o.PrintExecuted
+		sum["variants_skipped_after_repeated_hangs"] += o.Skipped
 		for _, rt := range o.Hashes {
 			if rt {
 				sum["distinct_nontrivial"]++
@@ -374,7 +378,7 @@ func cmdReplay(path string) {
 			fatal("%v", err)
 		}
 		if rf.Replay.Variant == nil {
-			o := ns.RunRobust(&c, true, true, nil)
+			o := ns.RunRobust(&c, true, true, nil, ns.NewHangBreaker(2))
 			writeJSON("", o.Disagreements)
 			if len(o.Disagreements) > 0 {
 				os.Exit(1)
